@@ -32,6 +32,27 @@ def cases(tier, rng, schema, feats):
         payloads += [rng.bytes(1 + rng.below(64)) for _ in range(n)]
         for k, p in enumerate(payloads):
             out.append(f"C11.dec.{b}.{k}\tdec2\t{bytes([b]).hex()}{p.hex()}")
+    # payloads shaped like other framings a transport might hand over (ISO 7816 command APDUs in short and extended form with
+    # consistent Lc / Le, CTAPHID init packets, a nested CTAP2 message): the command byte alone decides, whatever follows
+    inner = [b"\x04", b"\x07", b"\x01" + valid[0x01], b"", b"\x06" + valid[0x06]]
+    for b in range(256):
+        k = 0
+        for ins in (0x10, 0x00, 0x01, 0x02, 0x03, 0xA4):
+            for p1 in (0x00, 0x80, 0x03):
+                for body in (inner if b in (0x80, 0x00, 0x10, 0x04, 0xFF) or tier != "quick" else inner[:2]):
+                    n = len(body)
+                    frames = [bytes([ins, p1, 0x00]) + (bytes([n]) + body if n else b""),
+                              bytes([ins, p1, 0x00]) + (bytes([n]) + body if n else b"") + b"\x00",
+                              bytes([ins, p1, 0x00, 0x00]) + n.to_bytes(2, "big") + body,
+                              bytes([ins, p1, 0x00, 0x00]) + n.to_bytes(2, "big") + body + b"\x00\x00"]
+                    for fr in frames:
+                        out.append(f"C11.apdu.{b}.{k}\tdec2\t{bytes([b]).hex()}{fr.hex()}")
+                        k += 1
+        # CTAPHID-looking: channel id, command, length, payload
+        for body in inner[:3]:
+            hid = b"\xff\xff\xff\xff" + bytes([0x90]) + len(body).to_bytes(2, "big") + body
+            out.append(f"C11.hid.{b}.{k}\tdec2\t{bytes([b]).hex()}{hid.hex()}")
+            k += 1
     # 0x41 decodes exactly like 0x0A: every sub-command, with and without parameters / PIN members
     if "ctap2::credential_management::Request" in schema:
         from .. import gen as _gen
